@@ -28,6 +28,7 @@ pub fn classify(clause: &str, detail: &str, _trace: &[String]) -> Option<&'stati
                 None
             }
         }
+        "C20/released-by-a-removal-requested-before-the-caller-arrived" => Some("C20/stale-worker-exit-removes-successor"),
         "C05/handed-out-path-no-longer-valid" => {
             if detail.contains("[caller waited across the expiry") {
                 Some("C05/handed-out-path-no-longer-valid/caller-waited-across-expiry")
@@ -155,7 +156,9 @@ fn drive(h: &mut Hist) -> RunResult2 {
                 h.op_report_drawn()?;
                 continue;
             }
-            6 => h.op_stop(pair),
+            6 => {
+                h.op_stop(pair);
+            }
             7 => h.op_prefetch(pair),
             9 => h.op_gc(),
             _ => {
